@@ -331,6 +331,26 @@ def ref_range(flag):
 
 PREFIXES = ['no-', 'possible-', 'impossible-']
 
+def ref_formats():
+    """the HAND-MAINTAINED reference of the format languages: the rows of lean/I18n/Spec/StringFormatsRef.lean (one source of truth
+    for the Lean pin `string_formats_compat_pin` and for the falsifier).  name -> frozenset of example directives"""
+    path = os.path.join(common.VERIF, 'lean', 'I18n', 'Spec', 'StringFormatsRef.lean')
+    table = {}
+    for line in open(path, encoding='utf-8'):
+        m = re.match(r'\s*\("([^"]+)", \[(.*)\]\)[,\]]\s*$', line)
+        if m:
+            table[m.group(1)] = frozenset(re.findall(r'"([^"]*)"', m.group(2)))
+    if len(table) < 20:
+        raise common.Infra('reference table of format languages could not be read from ' + path)
+    return table
+
+def reference_view(live):
+    """the table the reference rules decide with: the reference's example sets for the formats it knows (whatever the data file says
+    about them — including when the data file dropped them), the data file's for formats only the data file knows"""
+    view = dict(live)
+    view.update(ref_formats())
+    return view
+
 def ref_format_flag(flag, formats):
     """(kind, format) of a `[no-|possible-|impossible-]<fmt>-format` flag with `<fmt>` in data/string-formats, else None"""
     if not flag.endswith('-format'):
